@@ -984,6 +984,13 @@ def _create_socks_endpoint(reactor, control_protocol, socks_config=None):
     be used if it already exists or will be created.
     """
     socks_ports = yield control_protocol.get_conf('SOCKSPort')
+    if socks_ports is None:
+        # get_conf() logs an error reply and gives us None: we don't
+        # know which SOCKS listeners Tor has, so we must not send a
+        # SOCKSPort list of our own (it would replace all of them)
+        raise RuntimeError(
+            "Couldn't learn Tor's SOCKSPort configuration"
+        )
     if socks_ports:
         socks_ports = list(socks_ports.values())[0]
         if not isinstance(socks_ports, list):
